@@ -31,6 +31,10 @@ import (
 //	burst   all calls of a set of operations fail / are slow for 400 ms (or 60 ms, so that the back-off is still running
 //	        when the faults stop) while jobs are due; the loop-side calls inside the window are counted (the code
 //	        before the repair made ~150 000 calls in 500 ms)
+//	spurious-empty  for 400 ms (30/60/90 ms) Size() reports 1 (or 3) while Head() and Pop() return an error that wraps
+//	        quartz.ErrQueueEmpty: no call "fails" in the loop's eyes, so its back-off state does not apply; the loop-side
+//	        calls in the window are counted against the same limit (the code before the repair made ~145 000 Head calls
+//	        in 500 ms)
 //	random  seeded mix: every call fails / is slow with some probability, random API calls in between
 //
 // Judged per plan: no panic and no hang (each plan runs in a supervised child process), every API call returns within
@@ -67,6 +71,16 @@ type fqPlan struct {
 	WinMs  int      `json:"win_ms,omitempty"` // burst window, default fqBurstWin
 }
 
+// windowed: the faults of this plan are active during one time window that starts once the jobs are running
+func (p fqPlan) windowed() bool { return p.Kind == "burst" || p.Kind == "spurious-empty" }
+
+func (p fqPlan) sizeReported() int {
+	if p.Index > 0 {
+		return p.Index
+	}
+	return 1
+}
+
 func (p fqPlan) win() time.Duration {
 	if p.WinMs > 0 {
 		return time.Duration(p.WinMs) * time.Millisecond
@@ -80,6 +94,8 @@ func (p fqPlan) String() string {
 		return fmt.Sprintf("plan %d: queue call number %d %ss", p.ID, p.Index, p.Mode)
 	case "burst":
 		return fmt.Sprintf("plan %d: every %s-side %s call %ss for %v", p.ID, p.Side, strings.Join(p.Ops, "/"), p.Mode, p.win())
+	case "spurious-empty":
+		return fmt.Sprintf("plan %d: for %v Size() reports %d while Head() and Pop() return an error wrapping ErrQueueEmpty", p.ID, p.win(), p.sizeReported())
 	}
 	return fmt.Sprintf("plan %d: random faults seed %d (fail %.2f, delay %.2f, ops %s, side %s)", p.ID, p.Seed, p.PFail, p.PDelay, strings.Join(p.Ops, "/"), p.Side)
 }
@@ -103,6 +119,7 @@ type fqQueue struct {
 	// API-side bookkeeping (API calls are issued by one driver goroutine, one at a time)
 	apiActive   atomic.Bool
 	apiInjected atomic.Int32
+	loopEmpty   atomic.Bool // the loop-side call in progress answers "size but no head"
 }
 
 func fqLoopSide() (loop, known bool) {
@@ -155,6 +172,10 @@ func (q *fqQueue) before(op string) bool {
 			if inOps && sideOK && !q.t0.IsZero() && time.Since(q.t0) < q.plan.win() {
 				fault = q.plan.Mode
 			}
+		case "spurious-empty":
+			if loop && (op == "size" || op == "head" || op == "pop") && !q.t0.IsZero() && time.Since(q.t0) < q.plan.win() {
+				fault = "empty"
+			}
 		case "random":
 			if inOps && sideOK {
 				x := q.rnd.Float64()
@@ -169,6 +190,9 @@ func (q *fqQueue) before(op string) bool {
 	}
 	q.calls = append(q.calls, fqCall{op, loop, time.Now(), fault})
 	q.mu.Unlock()
+	if op == "size" || op == "head" || op == "pop" {
+		q.loopEmpty.Store(fault == "empty")
+	}
 	switch fault {
 	case "delay":
 		time.Sleep(fqDelay)
@@ -181,6 +205,12 @@ func (q *fqQueue) before(op string) bool {
 	return false
 }
 
+// spurious reports whether the loop-side Size/Head/Pop call that was just admitted by before() must pretend that
+// the queue has a size but no head. (These three are made by the loop goroutine only, one after the other.)
+func (q *fqQueue) spurious() bool {
+	return q.plan.Kind == "spurious-empty" && q.loopEmpty.Load()
+}
+
 func (q *fqQueue) Push(j quartz.ScheduledJob) error {
 	if q.before("push") {
 		return fmt.Errorf("push: %w", errInjected)
@@ -191,17 +221,26 @@ func (q *fqQueue) Pop() (quartz.ScheduledJob, error) {
 	if q.before("pop") {
 		return nil, fmt.Errorf("pop: %w", errInjected)
 	}
+	if q.spurious() {
+		return nil, fmt.Errorf("pop: nothing visible yet: %w", quartz.ErrQueueEmpty)
+	}
 	return q.inner.Pop()
 }
 func (q *fqQueue) Head() (quartz.ScheduledJob, error) {
 	if q.before("head") {
 		return nil, fmt.Errorf("head: %w", errInjected)
 	}
+	if q.spurious() {
+		return nil, fmt.Errorf("head: nothing visible yet: %w", quartz.ErrQueueEmpty)
+	}
 	return q.inner.Head()
 }
 func (q *fqQueue) Size() (int, error) {
 	if q.before("size") {
 		return 0, fmt.Errorf("size: %w", errInjected)
+	}
+	if q.spurious() {
+		return q.plan.sizeReported(), nil
 	}
 	return q.inner.Size()
 }
@@ -371,7 +410,7 @@ func fqRunPlan(plan fqPlan) (rep fqReport) {
 	r := rand.New(rand.NewSource(plan.Seed))
 	ctx, cancel := context.WithCancel(context.Background())
 	defer cancel()
-	q.on.Store(plan.Kind != "burst") // a burst starts once the jobs are running
+	q.on.Store(!plan.windowed()) // a burst starts once the jobs are running
 	s.Start(ctx)
 	intervals := map[string]time.Duration{"j1": 20 * time.Millisecond, "j2": 30 * time.Millisecond, "j3": 40 * time.Millisecond, "j4": 25 * time.Millisecond}
 	sched := func(name string) func() error {
@@ -405,7 +444,7 @@ func fqRunPlan(plan fqPlan) (rep fqReport) {
 			m.at = time.Duration(35+22*i) * time.Millisecond
 			script = append(script, m)
 		}
-	case "burst":
+	case "burst", "spurious-empty":
 		phase = 60*time.Millisecond + plan.win() // no API calls during the burst: every one of them is an interrupt
 	case "random":
 		for i := 0; i < 6+r.Intn(6); i++ {
@@ -424,7 +463,7 @@ func fqRunPlan(plan fqPlan) (rep fqReport) {
 		if _, hung := h.fqDriver(st.what, st.f); hung {
 			return rep // the scheduler is stuck; leave it behind
 		}
-		if plan.Kind == "burst" && !burstStarted && st.what == "ScheduleJob(j3)" {
+		if plan.windowed() && !burstStarted && st.what == "ScheduleJob(j3)" {
 			time.Sleep(50 * time.Millisecond) // let every job fire at least once
 			q.mu.Lock()
 			q.t0 = time.Now()
@@ -505,14 +544,18 @@ func fqRunPlan(plan fqPlan) (rep fqReport) {
 			}
 			rep.Hit[side+"/"+c.op+"/"+c.fault]++
 		}
-		if plan.Kind == "burst" && c.loop && !q.t0.IsZero() && c.at.After(q.t0) && c.at.Before(q.t0.Add(plan.win())) {
+		if plan.windowed() && c.loop && !q.t0.IsZero() && c.at.After(q.t0) && c.at.Before(q.t0.Add(plan.win())) {
 			rep.BurstCalls++
 		}
 	}
 	q.mu.Unlock()
-	if plan.Kind == "burst" && rep.BurstCalls > fqBurstLimit {
-		rep.Violations = append(rep.Violations, fmt.Sprintf("C15 busy loop: %d loop-side queue calls within %v while the queue was failing (RetryInterval %v allows about %d; limit %d) (%s)",
-			rep.BurstCalls, plan.win(), fqRetry, 2*int(plan.win()/fqRetry)+2, fqBurstLimit, plan))
+	if plan.windowed() && rep.BurstCalls > fqBurstLimit {
+		what := "while the queue was failing"
+		if plan.Kind == "spurious-empty" {
+			what = "while the queue reported a size but had no head"
+		}
+		rep.Violations = append(rep.Violations, fmt.Sprintf("C15 busy loop: %d loop-side queue calls within %v %s (RetryInterval %v allows about %d; limit %d) (%s)",
+			rep.BurstCalls, plan.win(), what, fqRetry, 3*int(plan.win()/fqRetry)+3, fqBurstLimit, plan))
 	}
 	// fire times
 	for name, t := range h.trs {
@@ -605,6 +648,10 @@ func faultsRun(args []string) int {
 			add(fqPlan{Kind: "burst", Mode: "fail", Ops: ops, Side: "loop", WinMs: w})
 		}
 	}
+	for _, w := range []int{0, 30, 60, 90} {
+		add(fqPlan{Kind: "spurious-empty", Mode: "empty", WinMs: w})
+	}
+	add(fqPlan{Kind: "spurious-empty", Mode: "empty", Index: 3})
 	opsets := [][]string{nil, {"pop", "push"}, {"size", "head"}, {"push", "remove", "get"}, {"pop"}, {"push"}, {"get", "remove", "clear", "list"}}
 	for k := 0; k < *n/2; k++ {
 		add(fqPlan{Kind: "random", Mode: "mixed", Seed: r.Int63n(1 << 40), PFail: []float64{0.05, 0.2, 0.5, 0.9}[r.Intn(4)], PDelay: []float64{0, 0.05, 0.2}[r.Intn(3)],
@@ -661,7 +708,7 @@ func faultsRun(args []string) int {
 		} else {
 			dist["outcome"]["ok"]++
 		}
-		if p.Kind == "burst" {
+		if p.windowed() {
 			switch {
 			case rep.BurstCalls <= 30:
 				dist["burst_calls"]["<=30"]++
